@@ -42,26 +42,40 @@ theorem led_orJoin (rs : List Rx) (h : ∀ r ∈ rs, Led r) : Led (.grp (orJoin 
   obtain ⟨q, hq, rfl⟩ := List.mem_map.mp hr
   exact led_grp (h q hq)
 
-theorem led_iter {r : Rx} (h : Led r) (lo hi : Nat) : ∀ e s x, x ∈ iter r.run lo hi e s → x.2 = s ∨ StartsAddr s := by
+theorem led_iterG {r : Rx} (h : Led r) (lo hi : Nat) :
+    ∀ last e s x, x ∈ iterG r.run lo hi last e s → x.2 = s ∨ StartsAddr s := by
   induction hi generalizing lo with
   | zero =>
-    intro e s x hx
-    simp only [iter] at hx
+    intro last e s x hx
+    rw [iterG_hi_zero] at hx
     split at hx
     · simp at hx; left; rw [hx]
     · cases hx
   | succ n ih =>
-    intro e s x hx
-    simp only [iter, List.mem_append, List.mem_flatMap] at hx
-    rcases hx with ⟨y, hy, hx2⟩ | h0
-    · rcases h e s y hy with h1 | h1
+    intro last e s x hx
+    have step : ∀ lo' last' y, y ∈ r.run e s → x ∈ iterG r.run lo' n last' y.1 y.2 → x.2 = s ∨ StartsAddr s := by
+      intro lo' last' y hy hx2
+      rcases h e s y hy with h1 | h1
       · obtain ⟨ye, ys⟩ := y
         simp only at h1; subst h1
-        exact ih (lo - 1) ye ys x hx2
+        exact ih lo' last' ye ys x hx2
       · exact Or.inr h1
-    · split at h0
-      · simp at h0; left; rw [h0]
-      · cases h0
+    cases lo with
+    | succ lo =>
+      simp only [iterG, List.mem_flatMap] at hx
+      obtain ⟨y, hy, hx2⟩ := hx
+      exact step lo last y hy hx2
+    | zero =>
+      simp only [iterG, List.mem_append, List.mem_singleton] at hx
+      rcases hx with h1 | h0
+      · split at h1
+        · cases h1
+        · obtain ⟨y, hy, hx2⟩ := List.mem_flatMap.mp h1
+          exact step 0 _ y hy hx2
+      · left; rw [h0]
+
+theorem led_iter {r : Rx} (h : Led r) (lo hi : Nat) : ∀ e s x, x ∈ iter r.run lo hi e s → x.2 = s ∨ StartsAddr s :=
+  fun e s x hx => led_iterG h lo hi none e s x hx
 
 theorem led_rep {r : Rx} (h : Led r) (lo hi : Nat) : Led (.rep r lo hi) :=
   fun e s x hx => led_iter h lo hi e s x (mem_rep.mp hx)
